@@ -156,6 +156,11 @@ func (am AppModule) BeginBlock(ctx sdk.Context, _ abci.RequestBeginBlock) {
 	// init caches and aggregatorContext for node restart
 	// TODO: try better way to init caches and aggregatorContext than beginBlock
 	once.Do(func() {
+		// rebuilding the in-memory state reads the store. it must not consume gas on the block's
+		// gas meter: only a restarted node does this work, and the meter's value is reported as
+		// GasUsed by transactions that fail before the ante handler sets their own meter, so the
+		// restarted node would produce different transaction results than the other nodes.
+		ctx := ctx.WithGasMeter(sdk.NewInfiniteGasMeter())
 		_ = keeper.GetCaches()
 		_ = keeper.GetAggregatorContext(ctx, am.keeper)
 	})
